@@ -1165,9 +1165,18 @@ def falsify(ctx, hints):
     ck = Checker()
     n = ctx.scale(600, 4000)
     SEGM = {1: 12, 2: 6, 4: 3, 12: 1}
-    for it in range(n):
-        f = rng.choice(FREQS)
-        s = rand_spec(rng, freq=f, lo=2, hi=9998, sloppy=0)
+    # directed corpus run first: the periods around the end of February of century years (leap and non-leap by the 400
+    # rule), ordinary leap and non-leap years, for every calendar frequency -- random years hit them too rarely
+    corpus = []
+    for y in (1600, 1700, 1900, 2000, 2100, 2200, 2400, 2023, 2024, 4, 100, 400):
+        corpus += [(12, ("reg", 12, y, 2)), (12, ("reg", 12, y, 3)), (4, ("reg", 4, y, 1)), (2, ("reg", 2, y, 1)),
+                   (365, ("day", y, 2, 28)), (365, ("day", y, 3, 1)), (365, ("doy", y, 60))]
+    for it in range(n + len(corpus)):
+        if it < len(corpus):
+            f, s = corpus[it]
+        else:
+            f = rng.choice(FREQS)
+            s = rand_spec(rng, freq=f, lo=2, hi=9998, sloppy=0)
         P = py_spec(s)
         k = rand_offset(rng) if f == 0 else rng.randint(-300, 300)
         q = shifted_spec(rng, s, rng.randint(-40, 40))
